@@ -1,7 +1,7 @@
 (* C14 — The mixer is linear: mute means silence, channels superpose, separation mirrors. *)
 From Coq Require Import ZArith List Lia Bool Permutation.
 Import ListNotations.
-From LX Require Import Base.ListAux Model.Downmix Model.Mixer Proofs.MixerProofs.
+From LX Require Import Base.ListAux Model.Downmix Model.Mixer Proofs.MixerProofs Generated.MixTables Model.MixKernel Model.MixKernelSrc Proofs.MixKernelProofs.
 Local Open Scope Z_scope.
 
 (* mute / master volume 0: the voice volume is 0, so both gains are 0, so every voice contributes zeros, so the
@@ -72,3 +72,97 @@ Example c14_nonvacuous :
   vsum 4 (map contrib (map (map swapg) [v1; v2])) = [122000; 62000; -133200; -17200] /\
   gains (voice_vol 64 100 false) (sep_pan false false 200 (-50)) false = (64 * 164, 64 * 92).
 Proof. vm_compute. auto. Qed.
+
+
+(* ---------------------------------------------------------------- the kernels of mix_all.c (Model/MixKernel.v) ---------------------
+   The theorems above take every voice's contribution as given.  These say where a contribution comes from: each of the 40
+   kernels - any interpolation, sample width, sample and output channel count, with or without the IT filter, any position,
+   step (forwards or backwards), gains, ramp, filter coefficients and history, any sample memory - ADDS to the accumulation
+   buffer a list of values, and leaves a filter history, that do not depend on what the buffer held: so whichever voices were
+   mixed before, a voice adds the same thing (superposition), ... *)
+Theorem kernel_additive : forall c m a count ramp s buf1 buf2 r1 f1,
+  length buf1 = length buf2 -> kernel c m a count ramp s buf1 = Some (r1, f1) ->
+  exists r2, kernel c m a count ramp s buf2 = Some (r2, f1) /\ length r1 = length buf1 /\ length r2 = length buf2 /\
+    forall i, nth i r1 0 - nth i buf1 0 = nth i r2 0 - nth i buf2 0.
+Proof. exact MixKernelProofs.kernel_additive. Qed.
+Print Assumptions kernel_additive.
+
+(* ... it touches exactly count output frames, ... *)
+Theorem kernel_touches_only_its_frames : forall c m a count ramp s buf r f, kernel c m a count ramp s buf = Some (r, f) ->
+  forall i, (Z.to_nat (Z.max 0 count) * (if k_sout c then 2 else 1) <= i)%nat -> nth i r 0 = nth i buf 0.
+Proof. exact MixKernelProofs.kernel_touches_only_its_frames. Qed.
+Print Assumptions kernel_touches_only_its_frames.
+
+(* ... with both gains 0 and no ramp in progress it adds zeros (mute / master volume 0 at kernel level), ... *)
+Theorem kernel_zero_gain_is_silent : forall c m a count ramp s contrib s', count <= ramp \/ k_interp c = Nearest -> 0 <= ramp ->
+  a_vl a = 0 -> a_vr a = 0 -> contributions c m a count ramp s = Some (contrib, s') -> Forall (fun x => x = 0) contrib.
+Proof. exact MixKernelProofs.kernel_zero_gain_is_silent. Qed.
+Print Assumptions kernel_zero_gain_is_silent.
+
+(* ... and for a mono sample on stereo output, exchanging the two gains (with their previous values and ramp steps) exchanges
+   the left and right contributions exactly - what negating the pan or the separation does to a voice. *)
+Theorem kernel_swap_gains : forall c m a count ramp s contrib s', k_sin c = false -> k_sout c = true ->
+  contributions c m a count ramp s = Some (contrib, s') ->
+  contributions c m (swap_a a) count ramp (swap_s s) = Some (swap_pairs contrib, swap_s s').
+Proof. exact MixKernelProofs.kernel_swap_gains. Qed.
+Print Assumptions kernel_swap_gains.
+
+(* Where a kernel reads: the k-th fetch is at the closed-form position pos_at (no drift: start + chn * floor((frac + k * step) / 2^16)),
+   and when the sample memory covers the interpolation reach around each of those positions no read leaves it and the call
+   succeeds.  The two arithmetic facts are the mixer's "samples until the loop end / start" rule: while k * step has not
+   carried the position past the end (or below the start), the k-th position is still inside. *)
+Theorem kernel_positions_closed_form : forall n c m a ac s acc acc' s', 0 <= s_frac s < 65536 -> kloop n c m a ac s acc = Some (acc', s') ->
+  s_pos s' = s_pos s + chn_of c * ((s_frac s + Z.of_nat n * a_step a) / 65536) /\
+  s_frac s' = (s_frac s + Z.of_nat n * a_step a) mod 65536.
+Proof. exact kloop_position. Qed.
+Print Assumptions kernel_positions_closed_form.
+
+Theorem kernel_reads_in_window : forall c m a count ramp s buf lo hi,
+  0 <= s_frac s < 65536 ->
+  (forall i, lo <= i <= hi -> rd m i <> None) ->
+  (forall k, 0 <= k < count -> lo <= pos_at c a s k + reach_lo c /\ pos_at c a s k + reach_hi c <= hi) ->
+  (Z.to_nat (Z.max 0 count) * (if k_sout c then 2 else 1) <= length buf)%nat ->
+  kernel c m a count ramp s buf <> None.
+Proof. exact MixKernelProofs.kernel_reads_in_window. Qed.
+Print Assumptions kernel_reads_in_window.
+
+Theorem forward_positions_below_end : forall P F S E k, 0 <= F < 65536 -> 0 <= k -> F + k * S < (E - P) * 65536 ->
+  P + (F + k * S) / 65536 < E.
+Proof. exact MixKernelProofs.forward_positions_below_end. Qed.
+Print Assumptions forward_positions_below_end.
+
+Theorem reverse_positions_above_start : forall P F S St k, 0 <= F < 65536 -> 0 <= k -> St * 65536 <= P * 65536 + F + k * S ->
+  St <= P + (F + k * S) / 65536.
+Proof. exact MixKernelProofs.reverse_positions_above_start. Qed.
+Print Assumptions reverse_positions_above_start.
+
+(* value ranges: linear interpolation stays between its two samples; the filter history stays inside int32 *)
+Theorem linear_fetch_between : forall c m s off v v0 v1, k_interp c = Linear -> 0 <= s_frac s < 65536 ->
+  fetch c m s off = Some v -> rd m (s_pos s + off) = Some v0 -> rd m (s_pos s + off + chn_of c) = Some v1 ->
+  let sc := fun x => if k_wide c then x else x * 256 in
+  Z.min (sc v0) (sc v1) <= v <= Z.max (sc v0) (sc v1).
+Proof. exact MixKernelProofs.linear_fetch_between. Qed.
+Print Assumptions linear_fetch_between.
+
+Theorem filter_state_in_int32 : forall a smp f1 f2 out n1 n2, filt a smp f1 f2 = (out, n1, n2) ->
+  C_FILTER_MIN <= n1 <= C_FILTER_MAX /\ n2 = f1 /\ -65536 <= out <= 65535.
+Proof. exact filt_state_in_int32. Qed.
+Print Assumptions filter_state_in_int32.
+
+(* the tie by translation: the MIXER bodies regenerated from src/mix_all.c on this run are exactly the 40 bodies that the 40
+   kernel descriptions stand for, under the names mixer.c selects them by *)
+Theorem kernels_in_source_are_the_modelled_ones : source_matchesb = true.
+Proof. vm_compute. reflexivity. Qed.
+Print Assumptions kernels_in_source_are_the_modelled_ones.
+
+(* non-vacuity: a linear, 16-bit, mono-sample, stereo-output kernel call with a ramp: three frames at step 1.5 from position 1.25;
+   the same call on another buffer adds the same values *)
+Example c14_kernel_nonvacuous :
+  let c := {| k_interp := Linear; k_wide := true; k_sin := false; k_sout := true; k_filter := false |} in
+  let m := {| m_data := [0; 100; 200; 300; 400; 500; 600; 700]; m_base := 0 |} in
+  let a := {| a_vl := 2; a_vr := 3; a_step := 98304; a_dl := 256; a_dr := 0; a_a0 := 0; a_b0 := 0; a_b1 := 0 |} in
+  let s := {| s_pos := 1; s_frac := 16384; s_ovl := 256; s_ovr := 512; s_l1 := 0; s_l2 := 0; s_r1 := 0; s_r2 := 0 |} in
+  kernel c m a 3 1 s [0; 0; 0; 0; 0; 0; 9] = Some ([125; 250; 550; 550; 850; 1275; 9], (0, 0, 0, 0)) /\
+  kernel c m a 3 1 s [1; 1; 1; 1; 1; 1; 1] = Some ([126; 251; 551; 551; 851; 1276; 1], (0, 0, 0, 0)) /\
+  kernel c m a 3 1 s [0; 0; 0; 0; 0] = None /\ kernel c m a 5 1 s (repeat 0 10) = None.
+Proof. vm_compute. repeat split; reflexivity. Qed.
